@@ -9,7 +9,7 @@ use crate::policy::verif_harness::psync::{mk_policy, policy_estimate, policy_len
 use crate::policy::verif_harness::PolicyProcessor;
 use crate::policy::verif_harness::{any_slfu, any_tinylfu, slfu_from, COST_MAX};
 use crate::policy::{SampledLFU, TinyLFU};
-use crate::store::verif_harness::{any_ent, em_ok, raw, store_from, GEnt, NdValidator, Store};
+use crate::store::verif_harness::{any_ent, em_ok, raw, store_from, validator_last, GEnt, NdValidator, Store};
 use crate::ttl::verif_harness::{self as th, any_duration, time_at};
 use crate::verif_env::rec::{CollidingKb, RecCb, TabCoster, NT};
 use crate::verif_env::{chan, clock, hm_from, mrec, HS};
@@ -152,10 +152,10 @@ impl<KB: KeyBuilder<Key = u64>> Parked<KB> {
 /// Arbitrary quiescent cache state with up to two residents (values tagged 0 and 1) that
 /// satisfies I-SP (resident <=> charged), I-P (used == sum) and I-EM (expiry index), arbitrary
 /// popularity state. `ttl`: 0 no TTLs, 2 mixed.
-pub(crate) fn any_parked<KB: KeyBuilder<Key = u64>>(kb: KB, ttl: u8, cfg: Cfg, forced: Option<bool>) -> (Parked<KB>, Option<GEnt>, Option<GEnt>, [Option<(u64, i64)>; 3]) {
+pub(crate) fn any_parked_n<KB: KeyBuilder<Key = u64>>(kb: KB, ttl: u8, cfg: Cfg, forced: Option<bool>, n_max: usize) -> (Parked<KB>, Option<GEnt>, Option<GEnt>, [Option<(u64, i64)>; 3]) {
     let now = clock::set_nd(1000, th::SECS_MAX);
     let mut a = if nd::any_bool() { Some(any_ent(now, ttl, 4)) } else { None };
-    let mut b = if nd::any_bool() { Some(any_ent(now, ttl, 4)) } else { None };
+    let mut b = if n_max >= 2 && nd::any_bool() { Some(any_ent(now, ttl, 4)) } else { None };
     if let Some(x) = a.as_mut() {
         x.val = 0;
     }
@@ -184,6 +184,10 @@ pub(crate) fn any_parked<KB: KeyBuilder<Key = u64>>(kb: KB, ttl: u8, cfg: Cfg, f
     (park(kb, store, admit, costs, cfg), a, b, ents)
 }
 
+pub(crate) fn any_parked<KB: KeyBuilder<Key = u64>>(kb: KB, ttl: u8, cfg: Cfg, forced: Option<bool>) -> (Parked<KB>, Option<GEnt>, Option<GEnt>, [Option<(u64, i64)>; 3]) {
+    any_parked_n(kb, ttl, cfg, forced, 2)
+}
+
 #[cfg(kani)]
 fn instant_now_stub() -> std::time::Instant {
     unsafe { std::mem::zeroed() }
@@ -208,9 +212,13 @@ macro_rules! cache_harness {
              kani::stub(crossbeam_channel::Sender::send, chan::send),
              kani::stub(crossbeam_channel::Receiver::try_recv, chan::try_recv),
              kani::stub(crossbeam_channel::internal::try_select, chan::try_select),
+             kani::stub(crossbeam_channel::SelectedOperation::send, chan::sel_send),
+             kani::stub(wg::WaitGroup::wait, stubs::wg_wait),
+             kani::stub(parking_lot::Condvar::notify_all_slow, stubs::cv_notify_all_slow),
              kani::stub(std::time::Instant::now, instant_now_stub),
              kani::stub(std::fmt::format, stubs::fmt_format),
              kani::stub(crate::policy::sync::LFUPolicy::add, crate::policy::verif_harness::psync::add_contract),
+             kani::stub(crate::policy::sync::LFUPolicy::push, crate::verif_env::pushrec::push),
              $($k),*]
             fn $name() $body
         }
@@ -218,8 +226,13 @@ macro_rules! cache_harness {
 }
 
 // ------------------------------------------------------------------------------------------------
-// One processor event from an arbitrary quiescent state: C06 (I-SP), C08 (callback accounting),
-// C16 (charge), C01 (I-P at cache level)
+// One processor event from an arbitrary quiescent state. The same body serves several properties;
+// `focus` selects which assertions are compiled into the harness (keeps each formula small):
+//   F_SP  C06: resident <=> charged, len() == number of charged entries
+//   F_CB  C08: every value is resident or was handed to exactly one callback
+//   F_COST C16: charge = cost (+ internal overhead), cost reported to callbacks = charge
+//   F_P   C01: charged total == sum of per-entry charges
+//   F_TTL C05: only expired entries are reclaimed, all overdue ones are
 // ------------------------------------------------------------------------------------------------
 
 pub(crate) const EV_NEW: u8 = 0;
@@ -227,54 +240,77 @@ pub(crate) const EV_UPDATE: u8 = 1;
 pub(crate) const EV_DELETE: u8 = 2;
 pub(crate) const EV_TICK: u8 = 3;
 
-fn proc_step(ev: u8) {
+pub(crate) const F_SP: u8 = 1;
+pub(crate) const F_CB: u8 = 2;
+pub(crate) const F_COST: u8 = 4;
+pub(crate) const F_P: u8 = 8;
+pub(crate) const F_TTL: u8 = 16;
+
+fn proc_step(ev: u8, focus: u8) {
     let cfg = any_cfg();
     // residents carry TTLs only in the tick harness (the expiry index is decided at store level:
     // c04_em_store_*, c05_em_*); keeps the symbolic state of the other events small
     let ttl_class = if ev == EV_TICK { 2 } else { 0 };
-    let (mut p, a, b, ents) = any_parked(TransparentKeyBuilder::<u64>::default(), ttl_class, cfg, Some(true));
+    // a New item is the most expensive event (admission + evictions): one resident by default,
+    // two with --cfg verif_victims2 (thorough tier)
+    let n_max = if ev == EV_NEW && !cfg!(verif_victims2) { 1 } else { 2 };
+    let (mut p, a, b, ents) = any_parked_n(TransparentKeyBuilder::<u64>::default(), ttl_class, cfg, Some(true), n_max);
     let k = nd::any_u64();
     let resident_before = raw(&p.store, k);
-    let charge_before = p.policy.cost(&k);
     let isz = if cfg.ignore_internal_cost { 0 } else { p.item_size() };
+    let f_sp = focus & F_SP != 0;
+    let f_cb = focus & F_CB != 0;
+    let f_cost = focus & F_COST != 0;
+    let f_p = focus & F_P != 0;
+    let f_ttl = focus & F_TTL != 0;
     if ev == EV_NEW {
         let cost = nd::any_i64_in(0, COST_MAX);
-        let conflict = 0u64; // TransparentKeyBuilder
         let d = any_duration(4);
         let exp = time_at(clock::get(), d);
-        let item = Item::New { key: k, conflict, cost, value: 2, expiration: exp };
+        let item = Item::New { key: k, conflict: 0, cost, value: 2, expiration: exp };
         let r = p.proc_.handle_insert_event(Ok(item));
         vassert!(r.is_ok(), "handling a New item does not fail");
         let now_res = raw(&p.store, k);
         if resident_before.is_some() {
             // a New item for a resident key only arises from a vetoed / colliding insert
-            vassert!(now_res == resident_before, "a New item for a resident key leaves the resident entry untouched");
-            vassert!(p.cb.rejects(2) == 1 && p.cb.total(2) == 1, "the refused value is handed to on_reject exactly once");
+            if f_cb {
+                vassert!(now_res == resident_before, "a New item for a resident key leaves the resident entry untouched");
+                vassert!(p.cb.rejects(2) == 1 && p.cb.total(2) == 1, "the refused value is handed to on_reject exactly once");
+            }
         } else if let Some(e) = now_res {
-            vassert!(e.val == 2 && e.exp == exp, "an admitted item is stored with its value and deadline");
-            vassert!(p.policy.cost(&k) == cost + isz, "C16: the charge is the given cost plus the internal overhead unless ignored");
-            vassert!(p.cb.total(2) == 0, "an admitted value is not handed to any callback");
+            if f_cb {
+                vassert!(e.val == 2 && e.exp == exp, "an admitted item is stored with its value and deadline");
+                vassert!(p.cb.total(2) == 0, "an admitted value is not handed to any callback");
+            }
+            if f_cost {
+                vassert!(p.policy.cost(&k) == cost + isz, "the charge is the given cost plus the internal overhead unless ignored");
+            }
         } else {
-            vassert!(p.cb.rejects(2) == 1 && p.cb.total(2) == 1, "a rejected value is handed to on_reject exactly once");
-            vassert!(p.cb.cost_of(2) == cost + isz, "C16: the cost reported to on_reject is the charged cost");
-            vassert!(!p.policy.contains(&k), "a rejected key is not charged");
+            if f_cb {
+                vassert!(p.cb.rejects(2) == 1 && p.cb.total(2) == 1, "a rejected value is handed to on_reject exactly once");
+            }
+            if f_cost {
+                vassert!(p.cb.cost_of(2) == cost + isz, "the cost reported to on_reject is the charged cost");
+            }
         }
         // victims: a resident that disappeared was evicted through on_evict with its charge
         for (e, t) in [(a, 0u64), (b, 1u64)] {
             if let Some(e) = e {
                 if e.key != k {
                     let still = raw(&p.store, e.key).is_some();
-                    vassert!(still == (p.cb.total(t) == 0), "C08: a resident value is either still resident or was handed to exactly one callback");
-                    if !still {
-                        vassert!(p.cb.evicts(t) == 1, "an evicted value goes to on_evict exactly once");
+                    if f_cb {
+                        vassert!(still == (p.cb.total(t) == 0), "a resident value is either still resident or was handed to exactly one callback");
+                        vassert!(still || p.cb.evicts(t) == 1, "an evicted value goes to on_evict exactly once");
+                    }
+                    if f_cost && !still {
                         let ch = if t == 0 { ents[0].unwrap().1 } else { ents[1].unwrap().1 };
-                        vassert!(p.cb.cost_of(t) == ch && p.cb.index_of(t) == e.key, "C16: the cost reported to on_evict is the victim's charged cost");
+                        vassert!(p.cb.cost_of(t) == ch && p.cb.index_of(t) == e.key, "the cost reported to on_evict is the victim's charged cost");
                     }
                 }
             }
         }
         vcover!(resident_before.is_none() && now_res.is_some() && p.cb.all() == 0, "[new] admitted without victims");
-        vcover!(resident_before.is_none() && now_res.is_some() && p.cb.all() == 2, "[new] admitted with two victims");
+        vcover!(resident_before.is_none() && now_res.is_some() && p.cb.all() == 1, "[new] admitted with a victim");
         vcover!(resident_before.is_none() && now_res.is_none(), "[new] rejected");
         vcover!(resident_before.is_some(), "[new] New for a resident key");
     } else if ev == EV_UPDATE {
@@ -283,25 +319,32 @@ fn proc_step(ev: u8) {
         let item = Item::Update { key: k, cost, external_cost: ext };
         let r = p.proc_.handle_insert_event(Ok(item));
         vassert!(r.is_ok(), "handling an Update item does not fail");
-        if resident_before.is_some() {
-            vassert!(p.policy.cost(&k) == cost + ext + isz, "C16: an update re-charges the entry with the new cost plus internal overhead");
-        } else {
-            vassert!(!p.policy.contains(&k), "an Update for an absent key charges nothing");
+        if f_cost {
+            if resident_before.is_some() {
+                vassert!(p.policy.cost(&k) == cost + ext + isz, "an update re-charges the entry with the new cost plus internal overhead");
+            } else {
+                vassert!(!p.policy.contains(&k), "an Update for an absent key charges nothing");
+            }
         }
-        vassert!(raw(&p.store, k) == resident_before, "an Update item does not touch the store");
-        vassert!(p.cb.all() == 0, "an Update item triggers no callback");
+        if f_cb {
+            vassert!(raw(&p.store, k) == resident_before, "an Update item does not touch the store");
+            vassert!(p.cb.all() == 0, "an Update item triggers no callback");
+        }
         vcover!(resident_before.is_some(), "[update] update of a resident");
         vcover!(resident_before.is_none(), "[update] update of an absent key");
     } else if ev == EV_DELETE {
-        let conflict = 0u64;
-        let item = Item::Delete { key: k, conflict };
+        let item = Item::Delete { key: k, conflict: 0 };
         let r = p.proc_.handle_insert_event(Ok(item));
         vassert!(r.is_ok(), "handling a Delete item does not fail");
-        vassert!(raw(&p.store, k).is_none() && !p.policy.contains(&k), "after a Delete the key is neither resident nor charged");
-        if let Some(e) = resident_before {
-            vassert!(p.cb.exits(e.val) == 1 && p.cb.all() == 1, "the removed value is handed to on_exit exactly once");
-        } else {
-            vassert!(p.cb.all() == 0, "deleting an absent key triggers no callback");
+        if f_sp {
+            vassert!(raw(&p.store, k).is_none() && !p.policy.contains(&k), "after a Delete the key is neither resident nor charged");
+        }
+        if f_cb {
+            if let Some(e) = resident_before {
+                vassert!(p.cb.exits(e.val) == 1 && p.cb.all() == 1, "the removed value is handed to on_exit exactly once");
+            } else {
+                vassert!(p.cb.all() == 0, "deleting an absent key triggers no callback");
+            }
         }
         vcover!(resident_before.is_some(), "[delete] delete of a resident");
     } else {
@@ -311,16 +354,20 @@ fn proc_step(ev: u8) {
         for (e, t) in [(a, 0u64), (b, 1u64)] {
             if let Some(e) = e {
                 let still = raw(&p.store, e.key).is_some();
-                let elapsed = !e.exp.is_zero() && now >= th::deadline(&e.exp);
-                vassert!(still || elapsed, "C05: cleanup never removes an entry whose TTL has not elapsed (or that has none)");
-                vassert!(still == (p.cb.total(t) == 0), "C08: resident or handed to exactly one callback");
-                if !still {
-                    vassert!(p.cb.evicts(t) == 1, "an expired value goes to on_evict exactly once");
-                    let ch = if t == 0 { ents[0].unwrap().1 } else { ents[1].unwrap().1 };
-                    vassert!(p.cb.cost_of(t) == ch, "C16: the cost reported for an expired entry is its charged cost");
+                if f_ttl {
+                    let elapsed = !e.exp.is_zero() && now >= th::deadline(&e.exp);
+                    vassert!(still || elapsed, "cleanup never removes an entry whose TTL has not elapsed (or that has none)");
+                    if !e.exp.is_zero() && now >= th::deadline(&e.exp) + Duration::from_secs(1) {
+                        vassert!(!still, "an entry whose TTL elapsed more than one bucket width ago is reclaimed by the next cleanup pass");
+                    }
                 }
-                if !e.exp.is_zero() && now >= th::deadline(&e.exp) + Duration::from_secs(1) {
-                    vassert!(!still, "C05: an entry whose TTL elapsed more than one bucket width ago is reclaimed by the next cleanup pass");
+                if f_cb {
+                    vassert!(still == (p.cb.total(t) == 0), "resident or handed to exactly one callback");
+                    vassert!(still || p.cb.evicts(t) == 1, "an expired value goes to on_evict exactly once");
+                }
+                if f_cost && !still {
+                    let ch = if t == 0 { ents[0].unwrap().1 } else { ents[1].unwrap().1 };
+                    vassert!(p.cb.cost_of(t) == ch, "the cost reported for an expired entry is its charged cost");
                 }
             }
         }
@@ -328,53 +375,55 @@ fn proc_step(ev: u8) {
         vcover!(p.cb.all() == 0 && a.is_some(), "[tick] nothing reclaimed");
     }
     // invariants after the event
-    vassert!(p.sp_ok(k), "I-SP: the addressed key is resident iff it is charged");
-    let mut n = if raw(&p.store, k).is_some() { 1 } else { 0 };
-    for e in [a, b] {
-        if let Some(e) = e {
-            if e.key != k {
-                vassert!(p.sp_ok(e.key), "I-SP: every other key is resident iff it is charged");
-                vassert!(em_ok(&p.store, e.key), "I-EM: every other key stays filed under its own deadline");
-                if raw(&p.store, e.key).is_some() {
-                    n += 1;
+    if f_sp {
+        vassert!(p.sp_ok(k), "I-SP: the addressed key is resident iff it is charged");
+        let mut n = if raw(&p.store, k).is_some() { 1 } else { 0 };
+        for e in [a, b] {
+            if let Some(e) = e {
+                if e.key != k {
+                    vassert!(p.sp_ok(e.key), "I-SP: every other key is resident iff it is charged");
+                    if raw(&p.store, e.key).is_some() {
+                        n += 1;
+                    }
                 }
             }
         }
+        vassert!(p.cache.len() == n && policy_len(&p.policy) == n, "len() equals the number of charged entries");
     }
-    vassert!(em_ok(&p.store, k), "I-EM: the addressed key is filed exactly under its deadline");
-    vassert!(p.cache.len() == n && policy_len(&p.policy) == n, "len() equals the number of charged entries");
-    let (sum, _cnt, nonneg) = policy_sum(&p.policy);
-    vassert!(policy_used(&p.policy) == sum && nonneg, "I-P: the charged total equals the sum of the per-entry charges");
-    vassert!(p.cb.bad.load(Ordering::SeqCst) == 0, "no callback received an empty or foreign value");
-    let _ = charge_before;
+    if f_p {
+        let (sum, _cnt, nonneg) = policy_sum(&p.policy);
+        vassert!(policy_used(&p.policy) == sum && nonneg, "I-P: the charged total equals the sum of the per-entry charges");
+    }
+    if f_cb {
+        vassert!(p.cb.bad.load(Ordering::SeqCst) == 0, "no callback received an empty or foreign value");
+    }
     // dropping channels / Arcs / maps is irrelevant to every property and expensive for CBMC
     std::mem::forget(p);
 }
 
-cache_harness! {
-    [kani::unwind(6)]
-    fn c06_proc_new() {
-        proc_step(EV_NEW);
-    }
+macro_rules! proc_harness {
+    ($name:ident, $ev:expr, $focus:expr) => {
+        cache_harness! {
+            [kani::unwind(6)]
+            fn $name() {
+                proc_step($ev, $focus);
+            }
+        }
+    };
 }
-cache_harness! {
-    [kani::unwind(6)]
-    fn c06_proc_update() {
-        proc_step(EV_UPDATE);
-    }
-}
-cache_harness! {
-    [kani::unwind(6)]
-    fn c06_proc_delete() {
-        proc_step(EV_DELETE);
-    }
-}
-cache_harness! {
-    [kani::unwind(6)]
-    fn c06_proc_tick() {
-        proc_step(EV_TICK);
-    }
-}
+
+proc_harness!(c06_proc_new, EV_NEW, F_SP);
+proc_harness!(c06_proc_update, EV_UPDATE, F_SP);
+proc_harness!(c06_proc_delete, EV_DELETE, F_SP);
+proc_harness!(c06_proc_tick, EV_TICK, F_SP);
+proc_harness!(c08_proc_new, EV_NEW, F_CB);
+proc_harness!(c08_proc_delete, EV_DELETE, F_CB);
+proc_harness!(c08_proc_tick, EV_TICK, F_CB);
+proc_harness!(c16_proc_new, EV_NEW, F_COST);
+proc_harness!(c16_proc_update, EV_UPDATE, F_COST);
+proc_harness!(c16_proc_tick, EV_TICK, F_COST);
+proc_harness!(c01_proc_new, EV_NEW, F_P);
+proc_harness!(c05_proc_tick, EV_TICK, F_TTL);
 
 cache_harness! {
     [kani::unwind(6)]
@@ -387,19 +436,603 @@ cache_harness! {
     }
 }
 
+// ------------------------------------------------------------------------------------------------
+// One client call from an arbitrary quiescent state (C02, C03, C08, C09, C16)
+// ------------------------------------------------------------------------------------------------
+
+pub(crate) const F_VAL: u8 = 32;
+
+/// the client half of insert / insert_with_ttl / insert_if_present: the real `Cache::try_update`
+/// (what `try_insert_in` runs before its `select!`), validator answer symbolic
+fn client_insert(focus: u8) {
+    let mut cfg = any_cfg();
+    cfg.coster = [nd::any_i64_in(0, COST_MAX), nd::any_i64_in(0, COST_MAX), nd::any_i64_in(0, COST_MAX), 0];
+    let (p, a, b, _ents) = any_parked(TransparentKeyBuilder::<u64>::default(), 2, cfg, None);
+    let k = nd::any_u64();
+    let before = raw(&p.store, k);
+    let charge_before = p.policy.cost(&k);
+    let cost = nd::any_i64_in(0, COST_MAX);
+    let d = any_duration(4);
+    let only_update = nd::any_bool();
+    let now = clock::get();
+    let r = p.cache.try_update(k, 2, cost, d, only_update);
+    vassert!(r.is_ok(), "try_update does not fail");
+    let r = r.unwrap();
+    let after = raw(&p.store, k);
+    let vetoed = validator_last(&p.store) == Some(false);
+    let f_val = focus & F_VAL != 0;
+    let f_cb = focus & F_CB != 0;
+    let f_cost = focus & F_COST != 0;
+    let ext = if cost == 0 { cfg.coster[2] } else { 0 };
+    if before.is_some() && !vetoed {
+        if f_val {
+            let e = after.unwrap();
+            vassert!(e.val == 2, "an insert of a resident key that is not vetoed replaces the value immediately");
+            vassert!(th::created(&e.exp) == now && th::ttl_of(&e.exp) == d, "re-inserting a resident key replaces its deadline (no TTL given: it no longer expires)");
+            let g = p.cache.get(&k);
+            if d.is_zero() {
+                vassert!(g.is_some(), "the replaced entry is visible at once");
+            }
+            if let Some(g) = g {
+                vassert!(*g.value() == 2, "a lookup right after the insert returns the new value");
+            }
+        }
+        if f_cb {
+            vassert!(p.cb.exits(before.unwrap().val) == 1 && p.cb.all() == 1, "the replaced value is handed to on_exit exactly once");
+        }
+        match r {
+            Some((idx, Item::Update { key, cost: c2, external_cost })) => {
+                if f_cost {
+                    vassert!(idx == k && key == k && c2 == cost && external_cost == ext, "the queued Update carries the explicit cost, or the Coster's valuation when the cost is 0");
+                }
+            }
+            _ => {
+                vassert!(false, "a replaced resident key queues an Update item");
+            }
+        }
+        vcover!(cost == 0, "[client] coster consulted");
+        vcover!(!d.is_zero() && before.unwrap().exp.is_zero(), "[client] entry gains a TTL");
+        vcover!(d.is_zero() && !before.unwrap().exp.is_zero(), "[client] entry loses its TTL");
+    } else {
+        if f_val {
+            vassert!(after == before, "a vetoed insert, or an insert of an absent key, leaves the store exactly as it was (value and TTL)");
+        }
+        if f_cb {
+            vassert!(p.cb.all() == 0, "no callback fires for a vetoed insert or an insert of an absent key");
+        }
+        match r {
+            None => {
+                vassert!(only_update, "only insert_if_present gives up without queuing");
+            }
+            Some((idx, Item::New { key, conflict, cost: c2, value, expiration })) => {
+                vassert!(!only_update, "insert_if_present never queues a New item: it cannot create an entry");
+                if f_cost {
+                    vassert!(idx == k && key == k && conflict == 0 && value == 2 && c2 == cost + ext, "the queued New item carries the explicit cost, or the Coster's valuation when the cost is 0");
+                    vassert!(th::created(&expiration) == now && th::ttl_of(&expiration) == d, "the queued New item carries the requested TTL");
+                }
+            }
+            _ => {
+                vassert!(false, "an insert that did not replace anything queues a New item or nothing");
+            }
+        }
+        vcover!(before.is_some() && vetoed, "[client] vetoed");
+        vcover!(before.is_none() && only_update, "[client] insert_if_present on an absent key");
+        vcover!(before.is_none() && !only_update, "[client] plain insert of an absent key");
+    }
+    vassert!(p.policy.cost(&k) == charge_before, "the client call itself never changes the policy's charges");
+    for e in [a, b] {
+        if let Some(e) = e {
+            if e.key != k && f_val {
+                vassert!(raw(&p.store, e.key) == Some(e), "entries of other keys are untouched");
+            }
+        }
+    }
+    std::mem::forget(r);
+    std::mem::forget(p);
+}
+
 cache_harness! {
     [kani::unwind(6)]
-    fn probe_update_min() {
-        let cfg = any_cfg();
+    fn c02_client_insert() {
+        client_insert(F_VAL);
+    }
+}
+cache_harness! {
+    [kani::unwind(6)]
+    fn c08_client_insert() {
+        client_insert(F_CB);
+    }
+}
+cache_harness! {
+    [kani::unwind(6)]
+    fn c16_client_insert() {
+        client_insert(F_COST);
+    }
+}
+
+/// client remove: the entry is gone at once, its value is handed to on_exit once, a Delete item
+/// is queued behind whatever is pending, and processing that Delete un-charges the key without a
+/// second callback
+fn client_remove(focus: u8) {
+    let cfg = any_cfg();
+    let (mut p, a, b, _ents) = any_parked(TransparentKeyBuilder::<u64>::default(), 0, cfg, Some(true));
+    let k = nd::any_u64();
+    let before = raw(&p.store, k);
+    let r = p.cache.try_remove(&k);
+    vassert!(r.is_ok(), "try_remove does not fail while the buffer has room");
+    vassert!(raw(&p.store, k).is_none(), "a removed key is not retrievable from the moment remove returns");
+    vassert!(p.cache.get(&k).is_none(), "a lookup after remove returns nothing");
+    let f_cb = focus & F_CB != 0;
+    let f_sp = focus & F_SP != 0;
+    if f_cb {
+        match before {
+            Some(e) => vassert!(p.cb.exits(e.val) == 1 && p.cb.all() == 1, "the removed value is handed to on_exit exactly once"),
+            None => vassert!(p.cb.all() == 0, "removing an absent key triggers no callback"),
+        }
+    }
+    let processed = p.process_one();
+    vassert!(processed, "remove queued a Delete item");
+    vassert!(!p.process_one(), "remove queued exactly one item");
+    if f_cb {
+        vassert!(p.cb.all() == if before.is_some() { 1 } else { 0 }, "processing the Delete triggers no second callback");
+    }
+    if f_sp {
+        vassert!(!p.policy.contains(&k) && raw(&p.store, k).is_none(), "after the Delete is processed the key is neither resident nor charged");
+        for e in [a, b] {
+            if let Some(e) = e {
+                if e.key != k {
+                    vassert!(p.sp_ok(e.key) && raw(&p.store, e.key) == Some(e), "other keys stay resident and charged");
+                }
+            }
+        }
+    }
+    vcover!(before.is_some(), "[client] removed a resident");
+    vcover!(before.is_none() && a.is_some(), "[client] removed an absent key");
+    std::mem::forget(p);
+}
+
+cache_harness! {
+    [kani::unwind(6)]
+    fn c08_client_remove() {
+        client_remove(F_CB);
+    }
+}
+cache_harness! {
+    [kani::unwind(6)]
+    fn c06_client_remove() {
+        client_remove(F_SP);
+    }
+}
+
+// ------------------------------------------------------------------------------------------------
+// C11: clear()
+// ------------------------------------------------------------------------------------------------
+
+cache_harness! {
+    [kani::unwind(6)]
+    fn c11_clear_seq() {
+        // arbitrary quiescent state + one buffered, not yet applied New item; clear() on the client
+        // side, then the processor handles the clear signal (the cleaner drains the buffer)
+        let mut cfg = any_cfg();
+        cfg.metrics = true;
         let (mut p, a, b, _ents) = any_parked(TransparentKeyBuilder::<u64>::default(), 0, cfg, Some(true));
         let k = nd::any_u64();
+        let queued = nd::any_bool();
+        if queued {
+            let item = Item::New { key: k, conflict: 0, cost: nd::any_i64_in(0, COST_MAX), value: 2, expiration: time_at(clock::get(), any_duration(4)) };
+            vassert!(p.enqueue(item), "buffer has room");
+        }
+        p.metrics.add(MetricType::Hit, k, 1);
+        let r = p.cache.clear();
+        vassert!(r.is_ok(), "clear() returns Ok");
+        vassert!(p.cache.len() == 0, "after clear() nothing is resident");
+        vassert!(policy_used(&p.policy) == 0 && policy_len(&p.policy) == 0, "after clear() the charged cost is zero");
+        vassert!(policy_estimate(&p.policy, k) == 0, "after clear() the popularity estimator is zeroed");
+        vassert!(mrec::get(&p.metrics, MetricType::Hit) == 0 && mrec::get(&p.metrics, MetricType::CostAdd) == 0, "after clear() the metrics counters restart from zero");
+        for e in [a, b] {
+            if let Some(e) = e {
+                vassert!(p.cache.get(&e.key).is_none(), "no entry inserted before the clear() is retrievable");
+            }
+        }
+        let handled = p.process_clear();
+        vassert!(handled, "clear() signalled the processor");
+        vassert!(!p.process_one(), "the cleaner drained the insert buffer: buffered work is discarded");
+        vassert!(p.cache.len() == 0 && policy_len(&p.policy) == 0 && policy_used(&p.policy) == 0, "at quiescence after clear() the cache is empty and nothing is charged");
+        if queued {
+            vassert!(p.cb.evicts(2) == 1 && p.cb.total(2) == 1, "a buffered insert discarded by clear() hands its value to on_evict exactly once");
+        }
+        vassert!(p.cb.total(0) == 0 && p.cb.total(1) == 0, "clear() drops resident values without a callback");
+        vcover!(queued && a.is_some() && b.is_some(), "two residents and a buffered insert");
+        vcover!(!queued && a.is_some(), "no buffered work");
+        std::mem::forget(p);
+    }
+}
+
+cache_harness! {
+    [kani::unwind(6)]
+    fn c11_reuse_after_clear() {
+        // a key that had a TTL before the clear() is re-used afterwards with another TTL or none:
+        // the cache must behave like a fresh one (the old deadline must not sweep the new entry)
+        let cfg = any_cfg();
+        let now = clock::set_nd(1000, th::SECS_MAX);
+        let mut e = any_ent(now, 1, 4);
+        e.val = 0;
+        e.conflict = 0;
+        let k = e.key;
+        let store = store_from(Some(e), None, None, NdValidator::new(Some(true)));
+        let charge = nd::any_i64_in(0, COST_MAX);
+        let costs = slfu_from([Some((k, charge)), None, None], nd::any_i64_in(1, COST_MAX));
+        let mut p = park(TransparentKeyBuilder::<u64>::default(), store, any_tinylfu(1, 6), costs, cfg);
+        vassert!(p.cache.clear().is_ok(), "clear() returns Ok");
+        vassert!(p.process_clear(), "clear() signalled the processor");
+        // re-use the key
+        let d2 = any_duration(4);
+        let t_ins = clock::advance_nd(2);
+        let cost2 = nd::any_i64_in(0, COST_MAX);
+        let item = p.cache.try_update(k, 1, cost2, d2, false).unwrap();
+        match item {
+            Some((_, it)) => {
+                vassert!(p.enqueue(it), "buffer has room");
+            }
+            None => {
+                vassert!(false, "an insert of an absent key queues a New item");
+            }
+        }
+        vassert!(p.process_one(), "the New item is processed");
+        let admitted = raw(&p.store, k).is_some();
+        // later: a cleanup tick somewhere after the OLD deadline
+        let t_tick = clock::advance_nd(8);
+        p.tick();
+        let still = raw(&p.store, k).is_some();
+        if admitted {
+            let new_elapsed = !d2.is_zero() && t_tick >= t_ins + d2;
+            vassert!(still || new_elapsed, "a key re-used after clear() is only reclaimed when its NEW TTL has elapsed (never because of its pre-clear deadline)");
+            vassert!(p.sp_ok(k), "after the tick the re-used key is resident iff charged");
+        }
+        vcover!(admitted && d2.is_zero() && t_tick >= th::deadline(&e.exp) + Duration::from_secs(1), "re-used without TTL, tick after the old deadline");
+        vcover!(admitted && !d2.is_zero() && still, "re-used with a TTL and still alive");
+        vcover!(admitted && !still, "re-used entry reclaimed");
+        std::mem::forget(p);
+    }
+}
+
+// ------------------------------------------------------------------------------------------------
+// C09: insert_if_present through the public entry point
+// ------------------------------------------------------------------------------------------------
+
+cache_harness! {
+    [kani::unwind(6)]
+    fn c09_if_present_api() {
+        let cfg = any_cfg();
+        let (p, a, b, _ents) = any_parked(TransparentKeyBuilder::<u64>::default(), 0, cfg, None);
+        let k = nd::any_u64();
+        let before = raw(&p.store, k);
+        let charge_before = p.policy.cost(&k);
         let cost = nd::any_i64_in(0, COST_MAX);
-        let before = p.policy.contains(&k);
-        let item = Item::Update { key: k, cost, external_cost: 0 };
-        let r = p.proc_.handle_insert_event(Ok(item));
-        vassert!(r.is_ok(), "handling an Update item does not fail");
-        vassert!(p.policy.contains(&k) == before, "update does not change residency");
-        vcover!(before, "resident updated");
+        // also with work for the same key still buffered (a New that was not applied yet)
+        let pending = nd::any_bool();
+        if pending {
+            let item = Item::New { key: k, conflict: 0, cost: 1, value: 3, expiration: time_at(clock::get(), Duration::ZERO) };
+            vassert!(p.enqueue(item), "buffer has room");
+        }
+        // `try_insert_if_present` = closed-flag test + this call + the select! that enqueues the
+        // returned item (the select! itself cannot be compiled by Kani: the vtable of crossbeam's
+        // `dyn SelectHandle` reaches thread-locals). `None` is what makes the API return false.
+        let r = p.cache.try_update(k, 2, cost, Duration::ZERO, true);
+        vassert!(r.is_ok(), "insert_if_present does not fail");
+        let r = r.unwrap();
+        let vetoed = validator_last(&p.store) == Some(false);
+        if before.is_none() {
+            vassert!(r.is_none(), "insert_if_present on an absent key queues nothing and returns false");
+            vassert!(raw(&p.store, k).is_none(), "insert_if_present never creates an entry");
+            vassert!(p.cb.all() == 0, "insert_if_present on an absent key triggers no callback");
+        } else if vetoed {
+            vassert!(r.is_none(), "a vetoed insert_if_present queues nothing and returns false");
+            vassert!(raw(&p.store, k) == before, "a vetoed insert_if_present leaves value and TTL exactly as they were");
+        } else {
+            vassert!(matches!(r, Some((_, Item::Update { .. }))), "insert_if_present on a resident key behaves as an update (an Update item is queued)");
+            vassert!(raw(&p.store, k).map(|e| e.val) == Some(2), "insert_if_present on a resident key replaces the value");
+        }
+        std::mem::forget(r);
+        vassert!(p.policy.cost(&k) == charge_before, "the client call itself does not touch the charges");
+        vassert!(p.cache.len() == (a.is_some() as usize) + (b.is_some() as usize), "insert_if_present never changes the number of entries");
+        vcover!(before.is_none() && pending, "absent key with a pending buffered insert");
+        vcover!(before.is_some() && vetoed, "vetoed");
+        vcover!(before.is_some() && !vetoed, "applied");
+        std::mem::forget(p);
+    }
+}
+
+// ------------------------------------------------------------------------------------------------
+// C18: colliding keys at cache level
+// ------------------------------------------------------------------------------------------------
+
+cache_harness! {
+    [kani::unwind(6)]
+    fn c18_cache_isolation() {
+        // key1 resident under (index, c1), key2 maps to the same index with conflict c2 not in {0, c1}
+        let cfg = any_cfg();
+        let now = clock::set_nd(1000, th::SECS_MAX);
+        let k1 = nd::any_u64();
+        let k2 = nd::any_u64();
+        nd::assume(k1 >> 4 == k2 >> 4 && (k1 & 15) != (k2 & 15) && (k1 & 15) != 0 && (k2 & 15) != 0);
+        let idx = k1 >> 4;
+        let e = GEnt { key: idx, conflict: k1 & 15, val: 0, exp: time_at(now, any_duration(4)) };
+        let store = store_from(Some(e), None, None, NdValidator::new(Some(true)));
+        let charge = nd::any_i64_in(0, COST_MAX);
+        let costs = slfu_from([Some((idx, charge)), None, None], nd::any_i64_in(1, COST_MAX));
+        let mut p = park(CollidingKb, store, any_tinylfu(1, 6), costs, cfg);
+        let op = nd::any_u8_in(0, 2);
+        if op == 0 {
+            vassert!(p.cache.get(&k2).is_none(), "a lookup of the colliding key does not read the other key's value");
+            vassert!(p.cache.get_mut(&k2).is_none(), "get_mut of the colliding key does not reach the other key's value");
+            vassert!(p.cache.get_ttl(&k2).is_none(), "get_ttl of the colliding key reports nothing");
+            vcover!(true, "lookups");
+        } else if op == 1 {
+            let item = p.cache.try_update(k2, 1, nd::any_i64_in(0, COST_MAX), any_duration(4), false).unwrap();
+            vassert!(raw(&p.store, idx) == Some(e), "an insert of the colliding key does not overwrite the other key's value or TTL");
+            vassert!(p.cb.all() == 0, "no callback fires for the resident value");
+            if let Some((_, it)) = item {
+                vassert!(p.enqueue(it), "buffer has room");
+                vassert!(p.process_one(), "the queued item is processed");
+                vassert!(raw(&p.store, idx) == Some(e), "processing the colliding insert leaves the resident value untouched");
+                vassert!(p.cb.rejects(1) == 1 && p.cb.total(1) == 1 && p.cb.total(0) == 0, "the colliding key's value is refused through on_reject");
+            } else {
+                vassert!(false, "a colliding insert queues a New item");
+            }
+            vcover!(true, "colliding insert");
+        } else {
+            vassert!(p.cache.try_remove(&k2).is_ok(), "remove of the colliding key returns Ok");
+            vassert!(raw(&p.store, idx) == Some(e), "remove of the colliding key does not remove the other key's value");
+            vassert!(p.process_one(), "the queued Delete is processed");
+            vassert!(raw(&p.store, idx) == Some(e) && p.cb.all() == 0, "processing the colliding Delete leaves the resident value in place, no callback");
+            vassert!(p.sp_ok(idx), "the resident key is still charged after a colliding remove (resident <=> charged)");
+            vcover!(true, "colliding remove");
+        }
+        std::mem::forget(p);
+    }
+}
+
+// ------------------------------------------------------------------------------------------------
+// C20: builder validation; closed cache is inert
+// ------------------------------------------------------------------------------------------------
+
+#[cfg(kani)]
+fn spawn_stub<F, T>(_f: F) -> std::thread::JoinHandle<T>
+where
+    F: FnOnce() -> T + Send + 'static,
+    T: Send + 'static,
+{
+    panic!("VERIF: thread::spawn reached (Kani cannot execute threads)")
+}
+
+cache_harness! {
+    [kani::unwind(6),
+     kani::stub(std::thread::spawn, spawn_stub)]
+    fn c20_finalize_rejects_zero() {
+        let n = nd::any_usize();
+        let mc = nd::any_i64();
+        let bs = nd::any_usize();
+        nd::assume(n == 0 || mc == 0 || bs == 0);
+        let b = CacheBuilder::<u64, u64, TransparentKeyBuilder<u64>>::new_with_key_builder(n, mc, TransparentKeyBuilder::<u64>::default())
+            .set_buffer_size(bs)
+            .set_hasher(HS::default());
+        match b.finalize() {
+            Err(CacheError::InvalidNumCounters) => vassert!(n == 0, "InvalidNumCounters iff num_counters is zero"),
+            Err(CacheError::InvalidMaxCost) => vassert!(n != 0 && mc == 0, "InvalidMaxCost iff max_cost is zero"),
+            Err(CacheError::InvalidBufferSize) => vassert!(n != 0 && mc != 0 && bs == 0, "InvalidBufferSize iff the insert buffer size is zero"),
+            _ => vassert!(false, "a zero num_counters / max_cost / buffer size is rejected with its specific error"),
+        }
+        vcover!(n == 0 && mc == 0, "two zero parameters");
+        vcover!(n != 0 && mc != 0 && bs == 0, "only the buffer size is zero");
+        vcover!(mc == 0 && n == 1, "max_cost zero");
+    }
+}
+
+cache_harness! {
+    [kani::unwind(6)]
+    fn c20_closed_is_inert() {
+        // once the closed flag is set every operation returns its "closed" result without effect
+        let cfg = any_cfg();
+        let (p, a, b, _ents) = any_parked(TransparentKeyBuilder::<u64>::default(), 0, cfg, Some(true));
+        p.cache.is_closed.store(true, Ordering::SeqCst);
+        let k = nd::any_u64();
+        let n0 = p.cache.len();
+        vassert!(p.cache.get(&k).is_none() && p.cache.get_mut(&k).is_none(), "get / get_mut return nothing on a closed cache");
+        vassert!(p.cache.try_remove(&k).is_ok(), "remove returns Ok on a closed cache");
+        vassert!(p.cache.clear().is_ok(), "clear returns Ok on a closed cache");
+        vassert!(p.cache.wait().is_ok(), "wait returns Ok on a closed cache");
+        vassert!(p.cache.close().is_ok(), "close returns Ok on a closed cache (idempotent)");
+        vassert!(p.cache.len() == n0 && p.cb.all() == 0, "operations on a closed cache have no effect");
+        vassert!(p.proc_.insert_buf_rx.try_recv().is_err() && p.proc_.clear_rx.try_recv().is_err(), "operations on a closed cache queue nothing");
+        vcover!(a.is_some() && b.is_some(), "two residents");
+        std::mem::forget(p);
+    }
+}
+
+// ------------------------------------------------------------------------------------------------
+// C10: wait() (narrowed scope, DESIGN 6/C10 and 8): the blocking half is replaced by "run the
+// parked processor to quiescence, then the WaitGroup counter must be zero"
+// ------------------------------------------------------------------------------------------------
+
+#[cfg(kani)]
+static mut C10_P: *mut Parked<TransparentKeyBuilder<u64>> = std::ptr::null_mut();
+#[cfg(kani)]
+static mut C10_CLEAR_FIRST: bool = false;
+
+#[cfg(kani)]
+fn c10_driver() {
+    unsafe {
+        let p = &mut *C10_P;
+        if C10_CLEAR_FIRST {
+            // another thread's clear() lands after the marker was queued: the cleaner meets it
+            assert!(p.cache.clear().is_ok(), "clear() returns Ok");
+        }
+        p.drain();
+    }
+}
+
+#[cfg(kani)]
+fn c10_wait(clear_race: bool) {
+    let cfg = any_cfg();
+    let (mut p, a, b, _ents) = any_parked(TransparentKeyBuilder::<u64>::default(), 0, cfg, Some(true));
+    // enough room for one more entry: the policy must admit it
+    let k_ins = nd::any_u64();
+    let k_rem = nd::any_u64();
+    let cost = nd::any_i64_in(0, 1 << 20);
+    let was_resident = raw(&p.store, k_ins).is_some();
+    nd::assume(p.policy.cap() >= cost + p.item_size() + (1 << 20));
+    let do_ins = nd::any_bool();
+    let do_rem = nd::any_bool();
+    if do_ins {
+        if let Some((_, it)) = p.cache.try_update(k_ins, 2, cost, Duration::ZERO, false).unwrap() {
+            vassert!(p.enqueue(it), "buffer has room");
+        }
+    }
+    if do_rem {
+        vassert!(p.cache.try_remove(&k_rem).is_ok(), "remove succeeds while the buffer has room");
+    }
+    unsafe {
+        C10_P = &mut p as *mut _;
+        C10_CLEAR_FIRST = clear_race;
+        stubs::WG_DRIVER = Some(c10_driver);
+    }
+    let r = p.cache.wait();
+    vassert!(r.is_ok(), "wait() returns Ok once the marker has been released");
+    vassert!(p.proc_.insert_buf_rx.try_recv().is_err(), "everything queued before the marker has been consumed");
+    if !clear_race {
+        if do_ins && !(do_rem && k_rem == k_ins) {
+            vassert!(raw(&p.store, k_ins).map(|e| e.val) == Some(2), "an insert issued before wait() is retrievable when wait() returns");
+            vassert!(p.policy.contains(&k_ins), "an insert issued before wait() is charged when wait() returns");
+        }
+        if do_rem {
+            vassert!(raw(&p.store, k_rem).is_none() && !p.policy.contains(&k_rem), "a remove issued before wait() is fully applied when wait() returns");
+        }
+    } else {
+        vassert!(p.cache.len() == 0 && policy_len(&p.policy) == 0, "work discarded by a concurrent clear() leaves nothing behind");
+    }
+    vcover!(do_ins && do_rem && k_ins != k_rem && !was_resident, "insert and remove before wait");
+    vcover!(!do_ins && !do_rem, "wait with nothing pending");
+    let _ = (a, b);
+    unsafe {
+        stubs::WG_DRIVER = None;
+    }
+    std::mem::forget(p);
+}
+
+cache_harness! {
+    [kani::unwind(7)]
+    fn c10_wait_barrier() {
+        #[cfg(kani)]
+        c10_wait(false);
+    }
+}
+
+cache_harness! {
+    [kani::unwind(7)]
+    fn c10_wait_vs_clear() {
+        #[cfg(kani)]
+        c10_wait(true);
+    }
+}
+
+cache_harness! {
+    [kani::unwind(7)]
+    fn c10_wait_full_buffer() {
+        // a full insert buffer: wait() returns an error instead of blocking
+        let mut cfg = any_cfg();
+        cfg.insert_buf = 1;
+        let (p, _a, _b, _ents) = any_parked(TransparentKeyBuilder::<u64>::default(), 0, cfg, Some(true));
+        let k = nd::any_u64();
+        vassert!(p.enqueue(Item::Delete { key: k, conflict: 0 }), "first item fits");
+        let r = p.cache.wait();
+        vassert!(matches!(r, Err(CacheError::SendError(_))), "wait() on a full buffer returns SendError without blocking");
+        let r2 = p.cache.try_remove(&k);
+        vassert!(matches!(r2, Err(CacheError::ChannelError(_))), "remove on a full buffer reports the error instead of blocking");
+        vcover!(true, "full buffer");
+        std::mem::forget(p);
+    }
+}
+
+// ------------------------------------------------------------------------------------------------
+// C15 / C17: lookups are recorded toward popularity and counted as hit or miss
+// ------------------------------------------------------------------------------------------------
+
+cache_harness! {
+    [kani::unwind(6)]
+    fn c15_get_records() {
+        // buffer_items = 1: every lookup, hit or miss, hands its index hash to the policy at once
+        let mut cfg = any_cfg();
+        cfg.buffer_items = 1;
+        cfg.metrics = true;
+        let (p, a, _b, _ents) = any_parked_n(TransparentKeyBuilder::<u64>::default(), 0, cfg, Some(true), 1);
+        #[cfg(kani)]
+        crate::verif_env::pushrec::reset();
+        let k = nd::any_u64();
+        let resident = raw(&p.store, k).is_some();
+        let mutable = nd::any_bool();
+        let hit = if mutable { p.cache.get_mut(&k).is_some() } else { p.cache.get(&k).is_some() };
+        vassert!(hit == resident, "a lookup hits iff the key is resident (no TTL here)");
+        #[cfg(kani)]
+        {
+            use crate::verif_env::pushrec;
+            vassert!(pushrec::batches() == 1 && pushrec::flat_len() == 1 && pushrec::flat(0) == k, "every lookup, hit or miss, is recorded toward that key's popularity");
+        }
+        vassert!(mrec::get(&p.metrics, MetricType::Hit) + mrec::get(&p.metrics, MetricType::Miss) == 1, "hits + misses equals the number of lookups made on the open cache");
+        vassert!(mrec::get(&p.metrics, MetricType::Hit) == hit as u64, "a lookup counts as a hit iff it returned a value");
+        // closed cache: not recorded, not counted
+        p.cache.is_closed.store(true, Ordering::SeqCst);
+        vassert!(p.cache.get(&k).is_none(), "a closed cache returns nothing");
+        #[cfg(kani)]
+        vassert!(crate::verif_env::pushrec::batches() == 1, "a lookup on a closed cache is not recorded");
+        vassert!(mrec::get(&p.metrics, MetricType::Hit) + mrec::get(&p.metrics, MetricType::Miss) == 1, "a lookup on a closed cache is not counted");
+        vcover!(hit && mutable, "get_mut hit");
+        vcover!(!hit && a.is_some(), "miss next to a resident");
+        std::mem::forget(p);
+    }
+}
+
+cache_harness! {
+    [kani::unwind(6)]
+    fn c17_cache_counts() {
+        // admission / eviction / rejection / update / removal accounting at cache level, metrics on:
+        // I-M  keys_added - keys_evicted == number of charged entries,
+        //      cost_added - cost_evicted == charged total (mod 2^64)
+        // preserved by one processor event from a state that satisfies it.
+        let mut cfg = any_cfg();
+        cfg.metrics = true;
+        let (mut p, a, _b, ents) = any_parked_n(TransparentKeyBuilder::<u64>::default(), 0, cfg, Some(true), 1);
+        // establish I-M for the arbitrary pre-state: as if the resident had been admitted
+        if let Some(x) = a {
+            p.metrics.add(MetricType::KeyAdd, x.key, 1);
+            p.metrics.add(MetricType::CostAdd, x.key, ents[0].unwrap().1 as u64);
+        }
+        let k = nd::any_u64();
+        let ev = nd::any_u8_in(0, 2);
+        let rej0 = mrec::get(&p.metrics, MetricType::RejectSets);
+        if ev == 0 {
+            let item = Item::New { key: k, conflict: 0, cost: nd::any_i64_in(0, COST_MAX), value: 2, expiration: time_at(clock::get(), Duration::ZERO) };
+            vassert!(p.proc_.handle_insert_event(Ok(item)).is_ok(), "New handled");
+            let rejected = p.cb.rejects(2) == 1 && a.map_or(true, |x| x.key != k);
+            let oversize_or_popularity = mrec::get(&p.metrics, MetricType::RejectSets) == rej0 + 1;
+            vassert!(!oversize_or_popularity || rejected, "sets_rejected only counts inserts the policy refused");
+            vcover!(oversize_or_popularity, "popularity rejection counted");
+            vcover!(raw(&p.store, k).is_some() && p.cb.all() == 1, "admission with an eviction");
+        } else if ev == 1 {
+            let item = Item::Update { key: k, cost: nd::any_i64_in(0, COST_MAX), external_cost: 0 };
+            vassert!(p.proc_.handle_insert_event(Ok(item)).is_ok(), "Update handled");
+            vcover!(a.map_or(false, |x| x.key == k && p.policy.cost(&k) < ents[0].unwrap().1), "cost lowered (two's-complement delta)");
+        } else {
+            let item = Item::Delete { key: k, conflict: 0 };
+            vassert!(p.proc_.handle_insert_event(Ok(item)).is_ok(), "Delete handled");
+            vcover!(a.map_or(false, |x| x.key == k), "resident deleted");
+        }
+        let ka = mrec::get(&p.metrics, MetricType::KeyAdd);
+        let ke = mrec::get(&p.metrics, MetricType::KeyEvict);
+        let ca = mrec::get(&p.metrics, MetricType::CostAdd);
+        let ce = mrec::get(&p.metrics, MetricType::CostEvict);
+        vassert!(ka.wrapping_sub(ke) == policy_len(&p.policy) as u64, "keys_added - keys_evicted equals the number of charged entries");
+        vassert!(ca.wrapping_sub(ce) == policy_used(&p.policy) as u64, "cost_added - cost_evicted equals the charged total");
         std::mem::forget(p);
     }
 }
